@@ -8,7 +8,11 @@ pub fn run(args: &[String]) -> String {
     match pid {
         "C12" | "C13" | "C14" | "C04" | "C03" => alloc_model::search(seed, 4000),
         "C29" => serde_find::limit_search(seed),
-        "C15" | "C16" => serde_find::roundtrip_search(seed),
+        "C15" => serde_find::roundtrip_search(seed),
+        "C16" | "C22" => {
+            let r = crate::decoder_find::search(seed);
+            if r.contains("\"found\":true") { r } else { serde_find::roundtrip_search(seed) }
+        }
         "C09" => crate::unknown_find::search(seed),
         "C21" => crate::varint_find::search(seed),
         _ => "{\"found\":false,\"note\":\"no finder registered for this property\"}".to_string(),
